@@ -7,7 +7,8 @@ MUTATORS = {"append", "extend", "insert", "update", "pop", "popitem", "clear", "
 
 def scan(repo):
     findings = {"global_statements": [], "non_self_attribute_stores": [], "subscript_stores": [], "mutator_calls": [],
-                "setattr_calls": [], "multiply_bound_module_names": [], "mutable_class_attributes": [], "module_level_attribute_stores": []}
+                "setattr_calls": [], "multiply_bound_module_names": [], "mutable_class_attributes": [], "module_level_attribute_stores": [],
+                "mutable_default_arguments": []}
     for mname, m in repo.modules.items():
         for n, k in m.assign_counts.items():
             if k > 1:
@@ -22,6 +23,11 @@ def scan(repo):
                     if isinstance(cs, ast.Assign) and isinstance(cs.value, (ast.List, ast.Dict, ast.Set, ast.ListComp, ast.DictComp)):
                         findings["mutable_class_attributes"].append("%s.%s:%d" % (mname, st.name, cs.lineno))
         for fn in [n for n in ast.walk(m.tree) if isinstance(n, (ast.FunctionDef, ast.Lambda))]:
+            for dflt in list(fn.args.defaults) + [d for d in fn.args.kw_defaults if d is not None]:
+                # a mutable default is ONE object shared by every call in the process
+                if isinstance(dflt, (ast.List, ast.Dict, ast.Set, ast.ListComp, ast.DictComp, ast.SetComp)) or \
+                        (isinstance(dflt, ast.Call) and isinstance(dflt.func, ast.Name) and dflt.func.id in ("list", "dict", "set", "bytearray", "deque", "defaultdict", "OrderedDict")):
+                    findings["mutable_default_arguments"].append("%s:%d %s" % (mname, getattr(fn, "lineno", 0), ast.unparse(dflt)))
             selfname = fn.args.args[0].arg if getattr(fn.args, "args", None) else None
             local_objs = set()
             params = {a.arg for a in getattr(fn.args, "args", [])}
@@ -40,7 +46,9 @@ def scan(repo):
                     if not ok:
                         findings["non_self_attribute_stores"].append("%s %s" % (where, ast.unparse(n)))
                 if isinstance(n, ast.Subscript) and isinstance(n.ctx, (ast.Store, ast.Del)):
-                    findings["subscript_stores"].append("%s %s" % (where, ast.unparse(n)))
+                    # d[k] = v on a container this very call built and holds in a local variable is not shared state
+                    if not (isinstance(n.value, ast.Name) and n.value.id in local_objs):
+                        findings["subscript_stores"].append("%s %s" % (where, ast.unparse(n)))
                 if isinstance(n, ast.Call):
                     if isinstance(n.func, ast.Attribute) and n.func.attr in MUTATORS:
                         recv = n.func.value
@@ -71,7 +79,8 @@ def obligations(repo):
     # `self = klass(...)` followed by self.x = ... inside the two _deserialize_from_dict classmethods is a store on a
     # freshly allocated object whose local name is `self`: accepted by the `base.id == "self"` rule above
     ob("attribute stores inside functions target only self", f["non_self_attribute_stores"])
-    ob("no subscript store (d[k] = v) in any function", f["subscript_stores"])
+    ob("no subscript store (d[k] = v) on anything but a local container", f["subscript_stores"])
+    ob("no mutable default argument", f["mutable_default_arguments"])
     ob("no call of a mutating container method on anything but a local container", f["mutator_calls"])
     ob("no setattr/delattr on objects other than self, no exec/eval/globals/vars", f["setattr_calls"])
     ob("module-level names are bound once", f["multiply_bound_module_names"])
